@@ -198,6 +198,18 @@ def macroBranch (k : Kind) (x y : W64) : Bool :=
 end MirVerif
 
 namespace MirVerif
+/-- documented `bt`/`bf` (MIR.md: jump if the operand is not zero / is zero; the short forms look at the
+low 32 bits only) -/
+def docBT (short neg : Bool) (x : W64) : Bool :=
+  let nz := if short then decide (lo32 x ≠ 0) else decide (x ≠ 0)
+  if neg then !nz else nz
+
+/-- the interpreter's cases `MIR_BT/BF/BTS/BFS` (pinned text): `int64_t cond = x` resp.
+`int32_t cond = (int32_t) x`; `if (cond)` resp. `if (!cond)` -/
+def interpBT (short neg : Bool) (x : W64) : Bool :=
+  let cond : Int := if short then (lo32 x).toInt else x.toInt
+  if neg then decide (cond = 0) else decide (cond ≠ 0)
+
 /-- two optional results are related when both are undefined or both defined and related -/
 def optRel {α} (r : α → α → Prop) : Option α → Option α → Prop
   | none, none => True
